@@ -8,6 +8,25 @@ ALL = [f"C{i:02d}" for i in range(1, 21)]
 
 # id -> (technique, level text, level note, design ref)
 CHECKS = {
+    "C17": (
+        "exhaustive product enumeration dtype x conversion route x unit pair x value alphabet (dtype limits and float-"
+        "precision thresholds) x {scalar, array, strided view}, and ordered dtype pair x mixed-unit binary ufunc x call "
+        "form, on the real code; oracle = exact rational arithmetic (fractions.Fraction) rounded to the prescribed float type",
+        "13 dtypes (8 integer, 3 float, 2 complex) x 13 routes (to, to(Unit), in_units, to_value, convert_to_units, in_base/"
+        "in_mks/in_cgs and their in-place twins, three equivalence entry points) x 6 unit pairs (ratios, an offset pair, "
+        "identity) x every value of an alphabet holding 0, small numbers, the dtype limits and 2**p-1 .. 2**p+2 for the "
+        "significand widths p of float16/32/64 - each value alone as a scalar, all of them as an array and as a strided view. "
+        "Result dtype must be the float of the input's item size (float16 for 8-bit; in-place on 8-bit may refuse), floats "
+        "keep their width, complex stays complex, values must equal the exact rational product rounded to that type (2 "
+        "spacings; truncation is a separate failure mode), copy and in-place routes must agree bit for bit, and a RuntimeWarning "
+        "must accompany any integer the target float cannot hold. All 169 ordered dtype pairs x 7 binary ufuncs x 3 unit pairs "
+        "x {ufunc, operator, in-place, out=, scalar}: no truncation, floating (complex if either is) result, exact values to "
+        "the precision of the converted operand, targets equal to results.",
+        "For operands of different item sizes the statement does not fix the width: counted, not judged. A warning issued for "
+        "representable input carries no verdict. Equivalence routes are judged on floating-ness, width not narrower than the "
+        "input, and values.",
+        "DESIGN.md section 6 C17",
+    ),
     "C16": (
         "exhaustive product enumeration shape x dtype x index form (to depth 2) / accessor / constructor route / "
         "catalogue template / ufunc x call form on the real code; NumPy on the bare data is the reference for shapes, "
